@@ -65,12 +65,20 @@ def generate(rng, tier):
             if rng.chance(0.2):
                 mcids = mcids + [c for c in contest_ids if c not in cids][:1]
             mod = [gen_contest(rng, c) for c in mcids]
-        sessions.append({"TabulatorId": rng.pick([1, 11, 2, 21, 12, 111]) if digits else rng.randint(1, 20),
+        sessions.append({"TabulatorId": rng.pick([1, 11, 2, 21, 12, 111]) if digits else rng.pick([rng.randint(1, 20), rng.randint(1, 20), 100203, 1234567]),
                          "BatchId": rng.pick([1, 2, 12, 11, 21, 112]) if digits else rng.randint(1, 9), "RecordId": 1000 + k,
                          "obfuscated": rng.chance(0.2), "CountingGroupId": rng.pick([1, 2, 2, 3, 0]),
                          "Original": orig, "Modified": mod, "modified_first": rng.chance(0.5),
                          "cards_split": rng.randint(1, 3), "key_shuffle": rng.getrandbits(16),
                          "iscurrent": rng.pick(["realistic", "realistic", "all-true"])})
+    if len(sessions) >= 2 and rng.chance(0.15):
+        # the same card listed twice (a re-scan exported again): one record per session all the same
+        a, b = rng.sample(range(len(sessions)), 2)
+        for key in ("TabulatorId", "BatchId", "RecordId"):
+            sessions[b][key] = sessions[a][key]
+    slash_masks = rng.chance(0.2)
+    for s_ in sessions:
+        s_["mask_sep"] = "/" if slash_masks else "\\"
     opts = {"use_current": rng.chance(0.6), "enforce_rules": rng.chance(0.6),
             "include_groups": rng.pick([[], [], [2], [1, 2], [3], [0, 2], [1]]), "pool_groups": rng.pick([[], [1], [2], [1, 3], [0]])}
     nfiles = rng.pick([0, 0, 1, 2, 3])  # 0 = single file via read_cvrs
@@ -106,7 +114,7 @@ def serialise_session(s, layout):
         body = [o] + ([m] if m is not None else [])
     head = [("TabulatorId", s["TabulatorId"]), ("BatchId", s["BatchId"]),
             ("RecordId", "X" if s["obfuscated"] else s["RecordId"]), ("CountingGroupId", s["CountingGroupId"]),
-            ("ImageMask", f"D:\\NAS\\Images\\{s['TabulatorId']:05d}_{s['BatchId']:05d}_{s['RecordId']:06d}*.*"),
+            ("ImageMask", s.get("mask_sep", "\\").join(["D:", "NAS", "Images", f"{s['TabulatorId']:05d}_{s['BatchId']:05d}_{s['RecordId']:06d}*.*"])),
             ("SessionType", "ScannedVote")]
     items = head + body
     # key order of the session object: shuffled, but the relative order Original/Modified is what the fault plan says
